@@ -3,7 +3,7 @@
 Space: Probe: grids (even, odd, mixed, anisotropic) x energies x semiangle cutoff in {8, 20, 35 mrad (beyond the band of
 the smallest grids)} x soft/hard x {no aberration, EACH of the 25 polar symbols alone, 3 mixed sets} x tilt in {0, (5,-3),
 distribution} x positions in {none, origin, sub-pixel, list of 3, GridScan} x lazy/eager.  PlaneWave: grids x normalize x
-tilt (scalar, distribution).
+tilt (scalar, distribution with unit weights, Gaussian distributions with non-unit weights, N x 2 array).
 Oracle: sum |FFT psi|^2 = 1 for every built probe (and every ensemble member); PlaneWave(normalize=True) likewise;
 otherwise |psi| = 1 at every pixel.
 """
@@ -54,7 +54,9 @@ def check(ctx):
         if q and (g % 2 or cut == 0) and not (pos == "grid" and lazy):
             continue
         cases.append({"who": "probe", "g": g, "e": e, "cut": cut, "soft": soft, "ab": ab, "tilt": tilt, "pos": pos, "lazy": lazy})
-    for g, e, norm, tilt, lazy in itertools.product(grids, energies, (True, False), ("none", "scalar", "dist", "nx2"), (False, True)):
+    for g, e, cut, tilt, lazy in itertools.product(grids[:2], energies[:1], (1,), ("gauss", "gauss2"), (False, True)):
+        cases.append({"who": "probe", "g": g, "e": e, "cut": cut, "soft": True, "ab": 0, "tilt": tilt, "pos": "list3", "lazy": lazy})
+    for g, e, norm, tilt, lazy in itertools.product(grids, energies, (True, False), ("none", "scalar", "dist", "nx2", "gauss", "gauss2"), (False, True)):
         cases.append({"who": "pw", "g": g, "e": e, "norm": norm, "tilt": tilt, "lazy": lazy})
     # histories of edits on ONE Probe object (BFS, depth 2 quick / 3 thorough, dict model in lock-step): after every edit sequence the
     # probe it builds must be normalised and equal to the probe of a FRESH object constructed from the model's parameters
@@ -72,6 +74,10 @@ def tilt_of(name):
         return (5.0, -3.0)
     if name == "dist":
         return (D.from_values([0.0, 4.0]), -2.0)
+    if name == "gauss":  # a distribution with NON-UNIT weights: the weights belong to the later averaging, not to the members' amplitude
+        return (D.gaussian(2.0, num_samples=5), 0.0)
+    if name == "gauss2":
+        return (D.gaussian(2.0, num_samples=3), D.gaussian(1.5, num_samples=3))
     return np.array([[0.0, 0.0], [5.0, -3.0], [-7.0, 2.0]])
 
 
